@@ -60,6 +60,10 @@ guarded_by writerIndex.items mu
 guarded_by writerIndex.keys mu
 guarded_by reader.index indexMu
 guarded_by reader.messages messagesMu
+// published atomics of the head index: read without lock, but only ever written together with
+// items under the write lock (a reader holding RLock sees items and nextOffset consistent)
+guarded_by writerIndex.nextOffset mu writes
+guarded_by writerIndex.nextTime mu writes
 
 // ================================================================ readerIndex / writerIndex (C03, C04, C10)
 
@@ -250,6 +254,9 @@ func (*reader).getMessages
     assigns r.messages, r.messagesInuse
     ensures err == nil ==> ret0 != nil && ret0.gfile == r.gfile && r.messages == ret0
     ensures err != nil ==> r.messages == old(r.messages) && ioerr(err)
+    // pin: a successful getMessages holds the mmap reader open (GC / Close skip pinned readers)
+    ensures[locks_pin] err == nil ==> r.messagesInuse == old(r.messagesInuse) + 1
+    ensures[locks_pin_err] err != nil ==> r.messagesInuse == old(r.messagesInuse)
 
 func (*reader).GetNextOffset
     flags locks
@@ -262,6 +269,9 @@ func (*reader).GetNextOffset
 func (*reader).Consume
     flags locks
     requires[locks] rdLocksFree() && ixLocksFree()
+    // the mmap reader is used only while pinned, and the pin is dropped on every path
+    assert[locks_pinned] r.messagesInuse >= old(r.messagesInuse) + 1 at call message.(*Reader).Consume 1
+    ensures[locks_unpinned] r.messagesInuse == old(r.messagesInuse)
     requires rdWf(r)
     requires[count] 1 <= maxCount && maxCount <= 1048576
     assigns r.index, r.indexLastAccess, r.messages, r.messagesInuse
@@ -294,6 +304,9 @@ func (*reader).Consume
 func (*reader).Get
     flags locks
     requires[locks] rdLocksFree() && ixLocksFree()
+    // the mmap reader is used only while pinned, and the pin is dropped on every path
+    assert[locks_pinned] r.messagesInuse >= old(r.messagesInuse) + 1 at call message.(*Reader).Get 1
+    ensures[locks_unpinned] r.messagesInuse == old(r.messagesInuse)
     requires rdWf(r)
     assigns r.index, r.indexLastAccess, r.messages, r.messagesInuse
     ensures[wf]      rdWf(r)
@@ -430,6 +443,9 @@ lemma getAgreesConsume(l *log, o int64, first int64)
 func (*reader).GetByTime
     flags locks
     requires[locks] rdLocksFree() && ixLocksFree()
+    // the mmap reader is used only while pinned, and the pin is dropped on every path
+    assert[locks_pinned] r.messagesInuse >= old(r.messagesInuse) + 1 at call message.(*Reader).Get 1
+    ensures[locks_unpinned] r.messagesInuse == old(r.messagesInuse)
     requires rdWf(r)
     assigns r.index, r.indexLastAccess, r.messages, r.messagesInuse
     ensures[wf]      rdWf(r)
@@ -873,6 +889,9 @@ pred recHasKey(f int, k int, key []byte) := recKey(f, k) == bseq(key)
 func (*reader).GetByKey
     flags locks
     requires[locks] rdLocksFree() && ixLocksFree()
+    // the mmap reader is used only while pinned, and the pin is dropped on every path
+    assert[locks_pinned] r.messagesInuse >= old(r.messagesInuse) + 1 at call message.(*Reader).Get 1
+    ensures[locks_unpinned] r.messagesInuse == old(r.messagesInuse)
     requires rdWf(r) && r.params.Keys
     requires[hash] decodeHash(bseq(keyHash)) == keyHash(bseq(key))
     assigns r.index, r.indexLastAccess, r.messages, r.messagesInuse
@@ -996,6 +1015,9 @@ func (*reader).Delete
 func (*reader).ConsumeByKey
     flags locks lockonly noframe
     requires[locks] rdLocksFree() && ixLocksFree()
+    // the mmap reader is used only while pinned, and the pin is dropped on every path
+    assert[locks_pinned] r.messagesInuse >= old(r.messagesInuse) + 1 at call message.(*Reader).Get 1
+    ensures[locks_unpinned] r.messagesInuse == old(r.messagesInuse)
     requires rdWf(r)
     loop 1
       invariant[locks] rdLocksFree() && ixLocksFree()
